@@ -421,12 +421,20 @@ class Unit:
         out.append('  EXC__LAST };')
         out.append('#ifndef VERIF_NO_EXC_DEFS')
         out.append('int verif_exc = 0;')
-        out.append('static const int verif_exc_parent[] = { 0,')
+        out.append('static int verif_exc_parent_of(int e) { switch (e) {')
+        depth = 1
         for q in allexc:
             p = self.P.exc_parent.get(q)
-            out.append('  %s,' % (exc_cname(p) if p else '0'))
-        out.append('  0 };')
-        out.append('static _Bool verif_exc_isa(int e, int k) { while (e) VERIF_MODEL_LOOP { if (e == k) return 1; e = verif_exc_parent[e]; } return 0; }')
+            if p:
+                out.append('  case %s: return %s;' % (exc_cname(q), exc_cname(p)))
+            d, x = 1, q
+            while self.P.exc_parent.get(x):
+                x = self.P.exc_parent[x]; d += 1
+            depth = max(depth, d)
+        out.append('  default: return 0; } }')
+        out.append('/* is exception kind e the same as, or derived from, k?  (loop-free: the hierarchy is %d deep) */' % depth)
+        out.append('static _Bool verif_exc_isa(int e, int k) { %s return 0; }' % ' '.join(
+            'if (e == 0) return 0; if (e == k) return 1; e = verif_exc_parent_of(e);' for _ in range(depth + 1)))
         out.append('#endif')
         # enums
         for t in self.types:
